@@ -57,6 +57,17 @@ def Res.toInt : Res → Int
   | .abort => -2
   | .val x => x
 
+/-- the value handed to the caller, if any -/
+def Res.vals : Res → List Int
+  | .val x => [x]
+  | _ => []
+
+/-- ghost bookkeeping at a `ret` event: thread `t` has handed back what it took -/
+def Res.settle (r : Res) (t : Nat) (owed : List (Nat × Int)) : List (Nat × Int) :=
+  match r with
+  | .val x => owed.erase (t, x)
+  | _ => owed
+
 inductive Pc
   | idle
   -- push_bottom (owner)
@@ -133,6 +144,11 @@ structure St where
   pushed : List Int
   /-- ghost: values in the order they were taken (CAS on `top` won, or `pop_bottom` saw `t < b`) -/
   taken : List Int
+  /-- ghost: (thread, value) for every value that has been taken but not yet handed back by the
+      `ret` event of the operation that took it -/
+  owed : List (Nat × Int)
+  /-- ghost: values in the order `pop_bottom` / `steal` calls returned them to their callers -/
+  returned : List Int
   /-- ghost, per operation: reset by the thread's own load of `top`, set when ANOTHER thread's
       CAS on `top` succeeds -/
   raced : Nat → Bool
@@ -160,7 +176,7 @@ def Pc.popWindow : Pc → Bool
 
 def init (k0 : Nat) : St :=
   { k0 := k0, top := 0, bottom := 0, arr := 0, slot := fun _ _ => 0, pc := fun _ => .idle,
-    hb := 0, pushed := [], taken := [], raced := fun _ => false, wit := fun _ => false }
+    hb := 0, pushed := [], taken := [], owed := [], returned := [], raced := fun _ => false, wit := fun _ => false }
 
 /-- acquire or stronger (loads) -/
 def acq (mo : Nat) : Bool := mo == 2 || mo == 5
@@ -200,7 +216,7 @@ def step (s : St) : Ev → Option St
         else if x < b then
           -- more than one element: the owner takes element `b` without a CAS
           some { s with pc := upd s.pc t (.popTake b g x), raced := upd s.raced t false,
-                        hb := b, taken := s.taken ++ [s.at g b] }
+                        hb := b, taken := s.taken ++ [s.at g b], owed := s.owed ++ [(t, s.at g b)] }
         else some { s with pc := upd s.pc t (.popTake b g x), raced := upd s.raced t false }
       else none
     | .stealCalled =>
@@ -281,7 +297,7 @@ def step (s : St) : Ev → Option St
     | .popRead _ tt x =>
       if found = s.top ∧ exp = tt ∧ des = tt + 1 ∧ ok = decide (found = exp) ∧ mo = 5 then
         if ok then
-          some { s with top := des, taken := s.taken ++ [x],
+          some { s with top := des, taken := s.taken ++ [x], owed := s.owed ++ [(t, x)],
                         raced := fun w => if w = t then s.raced w else true,
                         pc := upd s.pc t (.popCased tt (.val x)) }
         else some { s with pc := upd s.pc t (.popCased tt .abort) }
@@ -289,7 +305,7 @@ def step (s : St) : Ev → Option St
     | .stealRead tt _ x =>
       if found = s.top ∧ exp = tt ∧ des = tt + 1 ∧ ok = decide (found = exp) ∧ mo = 5 then
         if ok then
-          some { s with top := des, taken := s.taken ++ [x],
+          some { s with top := des, taken := s.taken ++ [x], owed := s.owed ++ [(t, x)],
                         raced := fun w => if w = t then s.raced w else true,
                         pc := upd s.pc t (.stealDone (.val x)) }
         else some { s with pc := upd s.pc t (.stealDone .abort) }
@@ -301,11 +317,19 @@ def step (s : St) : Ev → Option St
     | _ => none
   | .retPop t r =>
     match s.pc t with
-    | .popDone r' => if r = r'.toInt then some { s with pc := upd s.pc t .idle } else none
+    | .popDone r' =>
+      if r = r'.toInt then
+        some { s with pc := upd s.pc t .idle, returned := s.returned ++ r'.vals,
+                      owed := r'.settle t s.owed }
+      else none
     | _ => none
   | .retSteal t r =>
     match s.pc t with
-    | .stealDone r' => if r = r'.toInt then some { s with pc := upd s.pc t .idle } else none
+    | .stealDone r' =>
+      if r = r'.toInt then
+        some { s with pc := upd s.pc t .idle, returned := s.returned ++ r'.vals,
+                      owed := r'.settle t s.owed }
+      else none
     | _ => none
 
 def sys (k0 : Nat) : Sys St Ev := { init := init k0, step := step }
